@@ -269,7 +269,9 @@ func c18Oracle(info *runInfo, res *verifsim.Result) {
 		case "read.enter":
 			flush()
 		case "counter", "gauge":
-			if strings.HasPrefix(e.S, "corerad_monitor_") {
+			// (the families the statement names; others a monitor may also keep
+			// are not this property's business)
+			if c18Family(e.S) {
 				v := e.V / 1e6
 				got = append(got, fmt.Sprintf("%s %s %d", e.K, e.S, v))
 			}
@@ -338,4 +340,23 @@ func diffLists(a, b []string) []string {
 
 func init() {
 	register("C18", nil, c18Gen, c18Oracle)
+}
+
+// c18Family reports whether a metric sample belongs to one of the monitor
+// families C18 speaks about.
+func c18Family(sample string) bool {
+	name := sample
+	if i := strings.IndexByte(name, '{'); i >= 0 {
+		name = name[:i]
+	}
+	switch name {
+	case "corerad_monitor_messages_received_total",
+		"corerad_monitor_flag_managed", "corerad_monitor_flag_other",
+		"corerad_monitor_default_route_expiration_timestamp_seconds",
+		"corerad_monitor_prefix_autonomous", "corerad_monitor_prefix_on_link",
+		"corerad_monitor_prefix_preferred_expiration_timestamp_seconds",
+		"corerad_monitor_prefix_valid_expiration_timestamp_seconds":
+		return true
+	}
+	return false
 }
